@@ -721,6 +721,10 @@ pub fn mon_hist(s: &mut dyn Subject, ctx: &mut Ctx, opts: &HistOpts) {
     let mut bad = false;
     let n_hist = ctx.cfg.hist_count;
     for h in 0..=n_hist {
+        if bad {
+            // one witness per case is enough; later histories would only repeat it
+            break;
+        }
         // the last history is a long one
         let len = if h == n_hist { ctx.cfg.long_hist_len } else { ctx.cfg.hist_len };
         let r0 = match h {
@@ -776,7 +780,7 @@ pub fn mon_hist(s: &mut dyn Subject, ctx: &mut Ctx, opts: &HistOpts) {
             if opts.register_invariant {
                 if bw < 128 && (st >> bw) != 0 {
                     bad = true;
-                    ctx.violate(VKind::Invariant, d, "register", &format!("storage holds state above bit {} of a u{} base", bw - 1, bw), Some((fd, i as usize)), if use_set { OP_SET } else { OP_WITH }, before, arg, &format!("storage {:#x}", st), &format!("storage {:#x}", exp), &hist);
+                    ctx.violate(VKind::Invariant, d, "register", &format!("storage holds state above bit {} of a u{} base", bw - 1, bw), Some((fd, i as usize)), if use_set { OP_SET } else { OP_WITH }, before, arg, &format!("storage {:#x}", st), &format!("no bit at or above position {} set", bw), &hist);
                     break;
                 }
                 match guard::run(|| s.raw()) {
